@@ -113,7 +113,14 @@ func (exp *SplitExp) FindTypedRefs(list []*BoundReference,
 	var innerType Type
 	switch val := exp.Value.(type) {
 	case *MapExp:
-		innerType = lookup.GetMap(t)
+		if tid.MapDim != 0 {
+			// Splitting a map literal whose values are typed maps.
+			// map<map<...>> is not a type which can be looked up, but
+			// all that is needed here is the type of the values.
+			innerType = &TypedMapType{Elem: t}
+		} else {
+			innerType = lookup.GetMap(t)
+		}
 	case *ArrayExp:
 		innerType = lookup.GetArray(t, 1)
 	case *MergeExp:
